@@ -15,7 +15,9 @@ import (
 	"encoding/json"
 	"fmt"
 	"math"
+	"math/rand"
 	"os"
+	"os/exec"
 	"path/filepath"
 	"reflect"
 	"regexp"
@@ -143,6 +145,10 @@ var extraQueries = []string{
 var generatedNames = []string{"n0", "e0", "s0", "i0", "pi0", "path", "depth", "n1", "e1", "s1", "ep0", "ex0", "pc0", "root_id", "next_id", "satisfied", "is_cycle", "kind_ids", "properties", "id"}
 
 func TestVerifBoundedTranslate(t *testing.T) {
+	if mode := os.Getenv(vxChildEnv); mode != "" {
+		vxChildMain(mode)
+		return
+	}
 	rotations, boundN := 3, 3
 	if n, err := strconv.Atoi(os.Getenv("VERIF_BOUND")); err == nil && n > 0 {
 		rotations, boundN = min(n, len(generatedNames)), n
@@ -366,7 +372,16 @@ func TestVerifBoundedTranslate(t *testing.T) {
 		}
 	}
 	// ---- extension classes (see the comment block below the test) ----
-	x := &vxState{fail: fail, known: map[string]bool{}, hits: map[string]int{}, cases: &cases, km: km, bound: boundN, counts: map[string]int{}}
+	// messages of the extension quote outputs: keep the result line free of (escaped) newlines
+	failFlat := func(format string, args ...any) {
+		msg := strings.NewReplacer("\n", " ", `\n`, " / ").Replace(fmt.Sprintf(format, args...))
+		if strings.HasPrefix(format, "C0") && len(msg) >= 3 {
+			fail(format[:3]+"%s", msg[3:])
+		} else {
+			fail("%s", msg)
+		}
+	}
+	x := &vxState{fail: failFlat, known: map[string]bool{}, hits: map[string]int{}, examples: map[string]string{}, cases: &cases, km: km, bound: boundN, counts: map[string]int{}}
 	for _, name := range strings.Split(os.Getenv("VERIF_KNOWN"), "|") {
 		if name = strings.TrimSpace(name); name != "" {
 			x.known[name] = true
@@ -374,7 +389,7 @@ func TestVerifBoundedTranslate(t *testing.T) {
 	}
 	x.seed, _ = strconv.ParseInt(os.Getenv("VERIF_SEED"), 10, 64)
 	extBound := vxRunExtension(x)
-	res := map[string]any{"name": "translate", "bound": fmt.Sprintf("%d translation case queries x {repeat, 8 concurrent, %d renamings, parameter/variable collision} + %d parser fixture queries x {no panic, repeat, AST unchanged} + %s", len(testCases), rotations+1, corpus, extBound), "cases": cases, "exhaustive": false, "failures": failures, "known_deviation_hits": x.hits}
+	res := map[string]any{"name": "translate", "bound": fmt.Sprintf("%d translation case queries x {repeat, 8 concurrent, %d renamings, parameter/variable collision} + %d parser fixture queries x {no panic, repeat, AST unchanged} + %s", len(testCases), rotations+1, corpus, extBound), "cases": cases, "exhaustive": false, "failures": failures, "known_deviation_hits": x.hits, "known_deviation_examples": x.examples}
 	out, _ := json.Marshal(res)
 	fmt.Println("BOUNDED-RESULT " + strings.ReplaceAll(string(out), "\\n", " "))
 	if len(failures) > 0 {
@@ -408,20 +423,27 @@ func TestVerifBoundedTranslate(t *testing.T) {
 const vxCallLimit = 30 * time.Second
 
 type vxState struct {
-	fail   func(format string, args ...any)
-	known  map[string]bool
-	hits   map[string]int
-	cases  *int
-	km     pgsql.KindMapper
-	bound  int
-	seed   int64
-	counts map[string]int
+	fail     func(format string, args ...any)
+	known    map[string]bool
+	hits     map[string]int
+	examples map[string]string // first input of every known class that was hit
+	cases    *int
+	km       pgsql.KindMapper
+	bound    int
+	seed     int64
+	counts   map[string]int
 }
 
 // deviation reports a violation of the oracle for an input of the named class.
 func (x *vxState) deviation(class, format string, args ...any) {
+	if os.Getenv("VERIF_DEBUG") != "" {
+		fmt.Printf("DEBUG deviation [%s] %s\n", class, strings.ReplaceAll(fmt.Sprintf(format, args...), "\n", " "))
+	}
 	if x.known[class] {
 		x.hits[class]++
+		if _, has := x.examples[class]; !has {
+			x.examples[class] = strings.NewReplacer("\n", " ", `\n`, " / ").Replace(fmt.Sprintf(format, args...))
+		}
 		return
 	}
 	x.fail(format+" [class "+class+"]", args...)
@@ -451,10 +473,16 @@ func vxTimedTranslate(model *cypher.RegularQuery, km pgsql.KindMapper, params ma
 // itself, 0 differs from -0), slices are compared up to their CAPACITY (an append into spare capacity is a change),
 // and functions / channels are compared by identity.
 func vxSame(a, b any) bool {
-	return vxSameValue(reflect.ValueOf(a), reflect.ValueOf(b), 0)
+	return vxSameValue(reflect.ValueOf(a), reflect.ValueOf(b), 0, false)
 }
 
-func vxSameValue(a, b reflect.Value, depth int) bool {
+// vxSameButNilSlices: as vxSame, but a nil slice and an empty slice of the same type are taken for equal (used only to
+// give the deviation "a nil slice was replaced by an empty one" a class of its own)
+func vxSameButNilSlices(a, b any) bool {
+	return vxSameValue(reflect.ValueOf(a), reflect.ValueOf(b), 0, true)
+}
+
+func vxSameValue(a, b reflect.Value, depth int, nilIsEmpty bool) bool {
 	if a.IsValid() != b.IsValid() {
 		return false
 	}
@@ -485,9 +513,9 @@ func vxSameValue(a, b reflect.Value, depth int) bool {
 		if a.IsNil() || b.IsNil() {
 			return a.IsNil() == b.IsNil()
 		}
-		return vxSameValue(a.Elem(), b.Elem(), depth+1)
+		return vxSameValue(a.Elem(), b.Elem(), depth+1, nilIsEmpty)
 	case reflect.Slice:
-		if a.IsNil() != b.IsNil() || a.Len() != b.Len() {
+		if (a.IsNil() != b.IsNil() && !nilIsEmpty) || a.Len() != b.Len() {
 			return false
 		}
 		n := min(a.Cap(), b.Cap())
@@ -495,14 +523,14 @@ func vxSameValue(a, b reflect.Value, depth int) bool {
 			a, b = a.Slice(0, n), b.Slice(0, n)
 		}
 		for i := 0; i < a.Len(); i++ {
-			if !vxSameValue(a.Index(i), b.Index(i), depth+1) {
+			if !vxSameValue(a.Index(i), b.Index(i), depth+1, nilIsEmpty) {
 				return false
 			}
 		}
 		return true
 	case reflect.Array:
 		for i := 0; i < a.Len(); i++ {
-			if !vxSameValue(a.Index(i), b.Index(i), depth+1) {
+			if !vxSameValue(a.Index(i), b.Index(i), depth+1, nilIsEmpty) {
 				return false
 			}
 		}
@@ -514,14 +542,14 @@ func vxSameValue(a, b reflect.Value, depth int) bool {
 		iter := a.MapRange()
 		for iter.Next() {
 			other := b.MapIndex(iter.Key())
-			if !other.IsValid() || !vxSameValue(iter.Value(), other, depth+1) {
+			if !other.IsValid() || !vxSameValue(iter.Value(), other, depth+1, nilIsEmpty) {
 				return false
 			}
 		}
 		return true
 	case reflect.Struct:
 		for i := 0; i < a.NumField(); i++ {
-			if !vxSameValue(a.Field(i), b.Field(i), depth+1) {
+			if !vxSameValue(a.Field(i), b.Field(i), depth+1, nilIsEmpty) {
 				return false
 			}
 		}
@@ -723,10 +751,21 @@ func vxParamValues() []vxParamValue {
 		b := graph.Kinds{graph.StringKind("NodeKind1"), graph.StringKind("NodeKind2")}
 		return b[:0], b
 	})
-	// a map that contains itself
-	vals = append(vals, vxV("cyclic map", func() any { m := map[string]any{"a": 1}; m["self"] = m; return m }))
-	vals = append(vals, vxV("cyclic slice", func() any { s := make([]any, 1); s[0] = s; return s }))
 	return vals
+}
+
+// values that contain themselves: run in a child process (unbounded recursion is a fatal error, not a panic)
+func vxCyclicValues() []vxParamValue {
+	return []vxParamValue{
+		vxV("cyclic map (m[\"self\"] = m)", func() any { m := map[string]any{"a": 1}; m["self"] = m; return m }),
+		vxV("cyclic slice (s[0] = s)", func() any { s := make([]any, 1); s[0] = s; return s }),
+		vxV("cyclic slice in a map (m[\"a\"] = s, s[0] = m)", func() any {
+			s := make([]any, 1)
+			m := map[string]any{"a": s}
+			s[0] = m
+			return m
+		}),
+	}
 }
 
 // positions of $p (and $q) per class of position
@@ -813,7 +852,11 @@ func vxParamClass(x *vxState) (queries, values int) {
 				x.deviation("param-panic", "C05 panic translating %s (value in the parameter map): %v", what, pan)
 			} else {
 				if !vxSame(params, ref) || !vxSame(wit, refWit) {
-					x.deviation("param-mutated", "C05 translation changed the caller's parameter map (or a map/slice nested in it) for %s: before %#v, after %#v", what, ref["p"], params["p"])
+					class := "param-mutated"
+					if vxSameButNilSlices(params, ref) && vxSame(wit, refWit) {
+						class = "param-nil-slice-replaced"
+					}
+					x.deviation(class, "C05 translation changed the caller's parameter map (or a map/slice nested in it) for %s: before %#v, after %#v", what, ref["p"], params["p"])
 				}
 				if !reflect.DeepEqual(before, model) {
 					x.deviation("param-mutated", "C05 translation changed the caller's AST for %s", what)
@@ -844,7 +887,11 @@ func vxParamClass(x *vxState) (queries, values int) {
 				continue
 			}
 			if !vxSame(model, refModel) || !vxSame(wit, refWit) {
-				x.deviation("param-mutated", "C05 translation changed the caller's AST (Parameter.Value or a map/slice nested in it) for %s", what)
+				class := "param-mutated"
+				if vxSameButNilSlices(model, refModel) && vxSame(wit, refWit) {
+					class = "param-nil-slice-replaced"
+				}
+				x.deviation(class, "C05 translation changed the caller's AST (Parameter.Value or a map/slice nested in it) for %s", what)
 			}
 			sql2, out2, err2, pan2, hung2 := vxTimedTranslate(model, x.km, nil)
 			if hung2 || pan2 != nil || (err1 == nil) != (err2 == nil) || sql1 != sql2 || !vxSame(out1, out2) {
@@ -856,6 +903,608 @@ func vxParamClass(x *vxState) (queries, values int) {
 }
 
 func vxRunExtension(x *vxState) string {
+	t0 := time.Now()
+	lap := func(what string) {
+		if os.Getenv("VERIF_DEBUG") != "" {
+			fmt.Printf("DEBUG %s took %v\n", what, time.Since(t0))
+		}
+		t0 = time.Now()
+	}
 	pq, pv := vxParamClass(x)
-	return fmt.Sprintf("%d parameter positions x %d parameter values x {parameter map, Parameter.Value} x {no panic/hang, nothing nested changed, repeat}", pq, pv)
+	lap("parameter values")
+	pc := vxCyclicClass(x)
+	lap("self-containing values")
+	names := vxNamesClass(x)
+	lap("names")
+	hist := vxHistoryClass(x) // last: everything above is history for it
+	lap("history")
+	return fmt.Sprintf("%d parameter positions x (%d parameter values x {parameter map, Parameter.Value} x {no panic/hang, nothing nested changed, repeat} + %d self-containing values in child processes) + %s + %s", pq, pv, pc, names, hist)
+}
+
+// ---- class 2: determinism across history ----
+
+type vxHistItem struct {
+	query  string
+	entry  string // "T": Translate + Translated with the shared parameter map; "F0"/"F1": FromCypher keeping/stripping literals
+	params int    // index into the shared parameter maps (entry "T")
+}
+
+// shared, read-only parameter maps (index 0 is the nil map)
+func vxSharedParams() []map[string]any {
+	return []map[string]any{
+		nil,
+		{"p": "x", "q": []string{"a", "b"}, "ids": []int64{1, 2, 3}, "m": map[string]any{"a": int64(1), "b": []string{"c"}}, "unused": 7},
+		{"p": vxChan, "mixed": []any{int64(1), "a"}, "q": struct{}{}},
+	}
+}
+
+var vxHistQueries = []struct {
+	query  string
+	params int
+}{
+	// expected to translate
+	{"match (n) return n", 0},
+	{"match (n:NodeKind1) where n.name = 'a' return n.name as name order by name limit 3", 0},
+	{"match (n)-[r:EdgeKind1]->(m:NodeKind2) return n, r, m", 0},
+	{"match p = (n:NodeKind1)-[:EdgeKind1*1..3]->(m) return p", 0},
+	{"match p = shortestPath((n:NodeKind1)-[:EdgeKind1*1..]->(m:NodeKind2)) return p", 0},
+	{"match p = allShortestPaths((n:NodeKind1)-[:EdgeKind1*1..]->(m:NodeKind2)) where n.name = 'x' return p", 0},
+	{"match (n:NodeKind1) match (n)-[:EdgeKind1*1..]->(m:NodeKind2) with n, count(m) as c return n, c order by c desc limit 5", 0},
+	{"match (n:NodeKind1) return count(n)", 0},
+	{"match (n) where n.name = $p and n.other in $q and id(n) in $ids return n", 1},
+	{"match (n) where n.props = $m return n", 1},
+	{"match p = (n {name: $p})-[*1..2]->(m) where m.name in $q return p", 1},
+	{"unwind [1, 2, 3] as x match (n) where id(n) = x return n, x", 0},
+	{"match (n) where any(x in n.list where x = 'a') return n", 0},
+	{"match (n) optional match (n)-[r]->(m) with n, collect(m) as ms return n, ms", 0},
+	{"match (n:NodeKind1 {name: 'a', objectid: 'b'})-[r:EdgeKind1 {isacl: false}]->(g:NodeKind2 {tier: 0}) return n, r, g", 0},
+	{"match (n) set n.name = 'x' return n", 0},
+	{"match (n)-[r]->(m) delete r", 0},
+	{"create (n:NodeKind1 {name: 'x'}) return n", 0},
+	{"match (n) where n.props = {a: 1, b: 2, c: 3} return n", 0},
+	{"match (n) with n as a match (a)-[r]->(b) with b as c match p = (c)-[]->(d) return p, d", 0},
+	{"match (n) where (n)-[:EdgeKind1]->(:NodeKind2) return n", 0},
+	{"match (n) return n.a + 1 as s, toLower(n.name) as l, [n.x, n.y] as arr", 0},
+	// expected to fail (at different depths of the translation)
+	{"match (n:VxMissingKind) return n", 0},
+	{"match (n)-[:VxMissingEdge*1..]->(m) return m", 0},
+	{"match (n:NodeKind1)-[r]->(m) where m:VxMissingKind return r", 0},
+	{"match p = shortestPath((n:NodeKind1)-[:EdgeKind1]->(m)) return p", 0},
+	{"match p = allShortestPaths((n)-[:EdgeKind1]->(m:NodeKind2)) return p", 0},
+	{"merge (n:NodeKind1) return n", 0},
+	{"match (x) match (y) merge (x)-[:EdgeKind1]->(y)", 0},
+	{"match (n:NodeKind1 {name: undefinedvar}) return n", 0},
+	{"match (n) return m", 0},
+	{"match (n) with n as a return n", 0},
+	{"match (n)-[r]->(m) where n.name = 'a' with n.name as x, m return y, m", 0},
+	{"match (n) where n.name = $p return n", 2},
+	{"match (n) where n.name in $mixed return n", 2},
+	{"match p = (n {name: $q})-[*1..2]->(m) return p", 2},
+	{"match (n) set n.name = m.name return n", 0},
+	{"match (n) delete m", 0},
+	{"match (n) where all(x in n.list where y = 1) return n", 0},
+	{"match (n) where n.a = 1 return n order by q", 0},
+	{"match p = (n)-[r*1..2]->(m) where unknownfn(r) return p", 0},
+	{"match (n) return unknownfn(n)", 0},
+	{"match (n) unwind n.list as x with x, z return x", 0},
+	{"match (n) where n.name = 'a' return n order by n.name, zz.other limit 1", 0},
+	{"match (n)-[r*1..2]->(m) with r as q match (q)-[]->(z) return z", 0},
+}
+
+// every query through Translate+Translated; every third one also through FromCypher (both literal modes)
+func vxHistPool() []vxHistItem {
+	var pool []vxHistItem
+	for i, q := range vxHistQueries {
+		pool = append(pool, vxHistItem{q.query, "T", q.params})
+		switch i % 3 {
+		case 0:
+			pool = append(pool, vxHistItem{q.query, "F0", 0})
+		case 1:
+			pool = append(pool, vxHistItem{q.query, "F1", 0})
+		}
+	}
+	return pool
+}
+
+// vxHistRun parses and translates one pool item and renders everything observable as one string.
+func vxHistRun(it vxHistItem, km pgsql.KindMapper, shared []map[string]any) (out string) {
+	defer func() {
+		if r := recover(); r != nil {
+			out = fmt.Sprintf("PANIC %v", r)
+		}
+	}()
+	model, err := frontend.ParseCypher(frontend.NewContext(), it.query)
+	if err != nil || model == nil {
+		return "PARSE-ERROR"
+	}
+	switch it.entry {
+	case "T":
+		res, err := translate.Translate(context.Background(), model, km, shared[it.params], translate.DefaultGraphID)
+		if err != nil {
+			return "ERROR (translate)"
+		}
+		text, err := translate.Translated(res)
+		if err != nil {
+			return "ERROR (format)"
+		}
+		return fmt.Sprintf("OK\n%s\n%#v", text, res.Parameters)
+	default:
+		formatted, err := translate.FromCypher(context.Background(), model, km, it.entry == "F1", translate.DefaultGraphID)
+		if err != nil {
+			return "ERROR (FromCypher)"
+		}
+		return fmt.Sprintf("OK\n%s\n%#v", formatted.Statement, formatted.Parameters)
+	}
+}
+
+const vxChildEnv = "VERIF_C05_CHILD"
+
+// vxChildMain is what a child process of this test binary does (see vxChild); it never prints a BOUNDED-RESULT.
+func vxChildMain(mode string) {
+	kind, arg, _ := strings.Cut(mode, ":")
+	idx, _ := strconv.Atoi(arg)
+	switch kind {
+	case "ref":
+		// the reference output of pool item idx: the FIRST translation of a fresh process, fresh kind mapper
+		pool := vxHistPool()
+		if idx >= 0 && idx < len(pool) {
+			fmt.Println("C05-CHILD " + strconv.Quote(vxHistRun(pool[idx], newKindMapper(), vxSharedParams())))
+		}
+	case "cyclic":
+		vals := vxCyclicValues()
+		if idx < 0 || idx >= len(vals) {
+			return
+		}
+		km := newKindMapper()
+		for pi, pos := range vxParamPositions {
+			model, err := frontend.ParseCypher(frontend.NewContext(), pos.query)
+			if err != nil {
+				continue
+			}
+			val, _ := vals[idx].mk()
+			fmt.Printf("C05-CHILD start %d\n", pi)
+			_, _, err, pan, hung := vxTimedTranslate(model, km, map[string]any{"p": val, "q": "other"})
+			fmt.Printf("C05-CHILD done %d hung=%v panic=%v err=%v\n", pi, hung, pan != nil, err != nil)
+		}
+	}
+}
+
+// vxChild runs this test binary again as a child process in the given mode and returns its C05-CHILD lines.
+func vxChild(mode string) (lines []string, all string, err error) {
+	cmd := exec.Command(os.Args[0], "-test.run=^TestVerifBoundedTranslate$", "-test.count=1", "-test.timeout=120s")
+	cmd.Env = append(os.Environ(), vxChildEnv+"="+mode)
+	raw, err := cmd.CombinedOutput()
+	for _, line := range strings.Split(string(raw), "\n") {
+		if rest, ok := strings.CutPrefix(line, "C05-CHILD "); ok {
+			lines = append(lines, rest)
+		}
+	}
+	return lines, string(raw), err
+}
+
+func vxFirstLineWith(text, needle string) string {
+	for _, line := range strings.Split(text, "\n") {
+		if strings.Contains(line, needle) {
+			return strings.TrimSpace(line)
+		}
+	}
+	return ""
+}
+
+// vxCyclicClass: values that contain themselves, each in a child process over every parameter position.
+func vxCyclicClass(x *vxState) int {
+	vals := vxCyclicValues()
+	for vi, pv := range vals {
+		*x.cases += len(vxParamPositions)
+		lines, all, err := vxChild(fmt.Sprintf("cyclic:%d", vi))
+		started, failedAt := -1, -1
+		for _, l := range lines {
+			f := strings.Fields(l)
+			if len(f) >= 2 && f[0] == "start" {
+				started, _ = strconv.Atoi(f[1])
+				failedAt = started
+			}
+			if len(f) >= 2 && f[0] == "done" {
+				failedAt = -1
+				if strings.Contains(l, "hung=true") {
+					x.deviation("param-hang", "C05 translation did not return within %v for %q with $p = %s", vxCallLimit, vxParamPositions[started].query, pv.name)
+				}
+				if strings.Contains(l, "panic=true") {
+					x.deviation("param-panic", "C05 panic translating %q with $p = %s", vxParamPositions[started].query, pv.name)
+				}
+			}
+		}
+		if failedAt >= 0 {
+			x.deviation("param-cyclic-crash", "C05 the whole process dies (%s; a fatal error, not a recoverable panic) translating %q with $p = %s", vxFirstLineWith(all, "fatal error"), vxParamPositions[failedAt].query, pv.name)
+		} else if err != nil || started != len(vxParamPositions)-1 {
+			x.fail("harness: child process for %s ended early without a crash being visible: %v / %d lines", pv.name, err, len(lines))
+		}
+	}
+	return len(vals)
+}
+
+func vxHistoryClass(x *vxState) string {
+	pool := vxHistPool()
+	shared, sharedRef := vxSharedParams(), vxSharedParams()
+	// reference outputs: one fresh process per item, 8 at a time
+	refs := make([]string, len(pool))
+	var (
+		wg   sync.WaitGroup
+		mu   sync.Mutex
+		gate = make(chan struct{}, 8)
+	)
+	for i := range pool {
+		wg.Add(1)
+		gate <- struct{}{}
+		go func(i int) {
+			defer wg.Done()
+			defer func() { <-gate }()
+			lines, all, err := vxChild(fmt.Sprintf("ref:%d", i))
+			if len(lines) != 1 {
+				mu.Lock()
+				x.fail("harness: no reference output from the child process for pool item %d (%v): %.300s", i, err, all)
+				mu.Unlock()
+				return
+			}
+			refs[i], _ = strconv.Unquote(lines[0])
+		}(i)
+	}
+	wg.Wait()
+	okQ, errQ := map[string]bool{}, map[string]bool{}
+	for i, r := range refs {
+		switch {
+		case r == "":
+			return "history: no reference outputs"
+		case strings.HasPrefix(r, "OK\n"):
+			okQ[pool[i].query] = true
+		case strings.HasPrefix(r, "ERROR"):
+			errQ[pool[i].query] = true
+		case strings.HasPrefix(r, "PANIC"):
+			x.deviation("history-panic", "C05 %s for %q (entry %s) as the first call of a fresh process", strings.SplitN(r, "\n", 2)[0], pool[i].query, pool[i].entry)
+		default:
+			x.fail("harness: history pool query %q: %s", pool[i].query, r)
+		}
+	}
+	if os.Getenv("VERIF_DEBUG") != "" {
+		for i, r := range refs {
+			fmt.Printf("DEBUG ref %d %s %q -> %.60q\n", i, pool[i].entry, pool[i].query, r)
+		}
+	}
+	if len(okQ) < 15 || len(errQ) < 15 {
+		x.fail("harness: the history pool must mix at least 15 failing and 15 succeeding queries, has %d / %d", len(errQ), len(okQ))
+	}
+	check := func(class, when string, j int, got string) {
+		if got != refs[j] {
+			x.deviation(class, "C05 output for %q (entry %s) %s differs from its output as the first call of a fresh process:\n  fresh: %.400q\n  now:   %.400q", pool[j].query, pool[j].entry, when, refs[j], got)
+		}
+	}
+	// the whole run of this test is history as well
+	for j := range pool {
+		*x.cases++
+		check("history", "after everything this test ran before", j, vxHistRun(pool[j], x.km, shared))
+	}
+	// every ordered pair, then every ordered pair again in reverse order
+	type pair struct{ i, j int }
+	var pairs []pair
+	for i := range pool {
+		for j := range pool {
+			pairs = append(pairs, pair{i, j})
+		}
+	}
+	for pass := 0; pass < 2; pass++ {
+		for k := range pairs {
+			pr := pairs[k]
+			if pass == 1 {
+				pr = pairs[len(pairs)-1-k]
+			}
+			*x.cases++
+			first := vxHistRun(pool[pr.i], x.km, shared)
+			check("history", fmt.Sprintf("run as the first of a pair, before %q (entry %s)", pool[pr.j].query, pool[pr.j].entry), pr.i, first)
+			check("history", fmt.Sprintf("run after %q (entry %s)", pool[pr.i].query, pool[pr.i].entry), pr.j, vxHistRun(pool[pr.j], x.km, shared))
+		}
+	}
+	// 8 goroutines, each running the pool in its own order, against the one kind mapper and the shared maps
+	const workers = 8
+	// a memo in the kind mapper that is written without synchronisation (two fields, last request and its answer)
+	// gave about 9 wrong statements in the 60000 concurrent translations of 100 rounds when tried (two runs), so
+	// such a defect is missed with probability about e^-9
+	rounds := 100 * x.bound
+	type mismatch struct {
+		j   int
+		got string
+	}
+	found, wrong := make([][]mismatch, workers), make([]int, workers)
+	start := make(chan struct{})
+	for w := 0; w < workers; w++ {
+		wg.Add(1)
+		go func(w int) {
+			defer wg.Done()
+			rng := rand.New(rand.NewSource(x.seed*1000 + int64(w)))
+			<-start
+			for r := 0; r < rounds; r++ {
+				for _, j := range rng.Perm(len(pool)) {
+					if got := vxHistRun(pool[j], x.km, shared); got != refs[j] {
+						wrong[w]++
+						if len(found[w]) < 3 {
+							found[w] = append(found[w], mismatch{j, got})
+						}
+					}
+				}
+			}
+		}(w)
+	}
+	close(start)
+	wg.Wait()
+	*x.cases += workers * rounds * len(pool)
+	for w := range found {
+		for _, m := range found[w] {
+			check("history-concurrent", fmt.Sprintf("in goroutine %d of %d running the pool concurrently against one kind mapper (%d of its %d outputs differ)", w, workers, wrong[w], rounds*len(pool)), m.j, m.got)
+		}
+	}
+	if !vxSame(shared, sharedRef) {
+		x.deviation("history-params-mutated", "C05 the shared parameter maps changed: before %#v, after %#v", sharedRef, shared)
+	}
+	return fmt.Sprintf("history pool of %d items (%d failing + %d succeeding queries x entry points Translate+Translated / FromCypher) x {after the whole run, all %d ordered pairs forwards and backwards, %d goroutines x %d rounds x %d items concurrently on one kind mapper} against reference outputs of fresh processes", len(pool), len(errQ), len(okQ), len(pairs), workers, rounds, len(pool))
+}
+
+// ---- classes 3 and 4: hygiene under hostile spellings of user names ----
+
+// vxInstantiate replaces the slots {0}, {1}, ... of a query template by names.
+func vxInstantiate(tmpl string, names []string) string {
+	for i, n := range names {
+		tmpl = strings.ReplaceAll(tmpl, "{"+strconv.Itoa(i)+"}", n)
+	}
+	return tmpl
+}
+
+// vxSpellings: the ways a user name may consistently appear in the statement: as written, without its backticks, or
+// as a quoted SQL identifier.
+func vxSpellings(name string) []string {
+	inner := name
+	if len(name) >= 2 && strings.HasPrefix(name, "`") && strings.HasSuffix(name, "`") {
+		inner = strings.ReplaceAll(name[1:len(name)-1], "``", "`")
+	}
+	out := []string{`"` + strings.ReplaceAll(inner, `"`, `""`) + `"`, inner}
+	if inner != name {
+		out = append(out, name)
+	}
+	return out
+}
+
+// vxDiff shows where two statements part.
+func vxDiff(want, got string) string {
+	i := 0
+	for i < len(want) && i < len(got) && want[i] == got[i] {
+		i++
+	}
+	from := max(0, i-60)
+	return fmt.Sprintf("at byte %d: expected ...%s, got ...%s", i, want[from:min(len(want), i+100)], got[from:min(len(got), i+100)])
+}
+
+// vxTwinCheck: the query with the given names against its twin with fresh harmless names; "" when the property holds.
+func vxTwinCheck(x *vxState, tmpl string, names []string) string {
+	twinNames := make([]string, len(names))
+	for i := range names {
+		twinNames[i] = fmt.Sprintf("zzq%d", i)
+	}
+	query, twin := vxInstantiate(tmpl, names), vxInstantiate(tmpl, twinNames)
+	twinModel, err := frontend.ParseCypher(frontend.NewContext(), twin)
+	if err != nil || twinModel == nil {
+		x.fail("harness: twin query %q does not parse: %v", twin, err)
+		return ""
+	}
+	model, err := frontend.ParseCypher(frontend.NewContext(), query)
+	if err != nil || model == nil {
+		x.counts["names-not-parsed"]++ // the parser's business, not the translator's
+		return ""
+	}
+	params := map[string]any{"p": "x", "pi0": "y", "n0": []string{"z"}}
+	sqlT, pT, errT, panT, hungT := vxTimedTranslate(twinModel, x.km, params)
+	sqlW, pW, errW, panW, hungW := vxTimedTranslate(model, x.km, params)
+	switch {
+	case hungT || hungW:
+		return fmt.Sprintf("C06 translation did not return within %v for %q", vxCallLimit, query)
+	case panW != nil:
+		return fmt.Sprintf("C06 panic translating %q (its twin %q: %v): %v", query, twin, panT, panW)
+	case panT != nil:
+		return fmt.Sprintf("C06 panic translating %q: %v", twin, panT)
+	case errT != nil && errW != nil:
+		return ""
+	case errT != nil:
+		return fmt.Sprintf("C06 %q translates although its twin with fresh names %q does not (%v): distinct names were taken for one variable", query, twin, errT)
+	case errW != nil:
+		return fmt.Sprintf("C06 the names of %q turn the translatable query %q into an error: %v", query, twin, errW)
+	}
+	// one consistent spelling per name
+	choice := make([]int, len(names))
+	for {
+		m := map[string]string{}
+		for i, n := range names {
+			m[twinNames[i]] = vxSpellings(n)[choice[i]]
+		}
+		if substOutsideLiterals(sqlT, m) == sqlW {
+			break
+		}
+		k := 0
+		for k < len(names) {
+			choice[k]++
+			if choice[k] < len(vxSpellings(names[k])) {
+				break
+			}
+			choice[k] = 0
+			k++
+		}
+		if k == len(names) {
+			m := map[string]string{}
+			for i, n := range names {
+				m[twinNames[i]] = vxSpellings(n)[0]
+				if userName.MatchString(n) {
+					m[twinNames[i]] = n
+				}
+			}
+			return fmt.Sprintf("C06 %q differs from its twin %q in more than the user's names, %s", query, twin, vxDiff(substOutsideLiterals(sqlT, m), sqlW))
+		}
+	}
+	if !vxSame(pT, pW) {
+		return fmt.Sprintf("C06 %q and its twin %q give different parameters: %#v / %#v", query, twin, pW, pT)
+	}
+	return ""
+}
+
+type vxShape struct{ tag, tmpl string }
+
+// shapes for class 3; a slot is a variable, an alias or an UNWIND target
+var vxNameShapes = []vxShape{
+	{"match-return", "match ({0}) return {0}"},
+	{"two-names", "match ({0}) return {1}"}, // two names: must fail, as its twin does
+	{"pattern", "match ({0}:NodeKind1)-[{1}:EdgeKind1]->({2}) where {0}.name = $p return {0}, {1}, {2}"},
+	{"param-alias", "match ({0}) where {0}.name = $p and {0}.other = $pi0 and {0}.third in $n0 return {0}, $p as {1}"},
+	{"with-rename-match", "match ({0}) with {0} as {1} match ({1})-[{2}]->() return {1}, {2}"},
+	{"with-alias-where", "match ({0}) with {0}, {0}.name as {1} where {1} = $p return {0}, {1}"},
+	{"unwind-match", "unwind [1, 2, 3] as {0} match ({1}) where id({1}) = {0} return {1}, {0}"},
+	{"unwind-param", "unwind $n0 as {0} return {0}"},
+	{"unwind-twice", "unwind $n0 as {0} unwind $n0 as {1} return {0}, {1}"},
+	{"collect-unwind", "match ({0}) with collect({0}) as {1} unwind {1} as {2} return {2}"},
+	{"two-matches", "match ({0}) match ({1}) where {0}.name = {1}.name return {0}, {1}"},
+	{"with-match", "match ({0})-[]->({1}) with {0}, {1} match ({1})-[]->({2}) return {0}, {1}, {2}"},
+	{"with-with", "match ({0}) with {0} match ({1}) with {0}, {1} return {0}.name, {1}.name"},
+	{"path-expansion", "match {3} = ({0})-[{1}*1..2]->({2}) return {3}, {0}, {2}"},
+	{"shortest-path", "match {2} = shortestPath(({0}:NodeKind1)-[:EdgeKind1*1..]->({1}:NodeKind2)) return {2}"},
+	{"quantifier", "match ({0}) where any({1} in {0}.list where {1} = $p) return {0}"},
+	{"optional-collect", "match ({0}) optional match ({0})-[{1}]->({2}) with {0}, collect({2}) as {3} return {0}, {3}"},
+	// the aggregate shape, and its variant in which the second MATCH starts from another name
+	{"aggregate-count", "match ({0}:NodeKind1) match ({0})-[:EdgeKind1*1..]->({1}:NodeKind2) with {0}, count({1}) as {2} return {0}, {2} order by {2} desc limit 5"},
+	{"aggregate-count-other-start", "match ({0}:NodeKind1) match ({1})-[:EdgeKind1*1..]->({2}:NodeKind2) with {0}, count({2}) as {3} return {0}, {3} order by {3} desc limit 5"},
+	{"aggregate-count-other-start-grouped", "match ({0}:NodeKind1) match ({1})-[:EdgeKind1*1..]->({2}:NodeKind2) with {1}, count({2}) as {3} return {1}, {3} order by {3} desc limit 5"},
+}
+
+// names for class 3: every window of consecutive names is used for consecutive slots, so case twins are neighbours
+var vxHostileNames = []string{
+	"n", "N", "a", "A", "m", "M", "c", "C",
+	"`n`", "`N`", "`a`", "`A`",
+	"`a$b`", "`$`", "`$p`", "`p`", "`$pi0`", "`pi0`", "`@pi0`", "`$n0`", "`n0`", "`N0`",
+	"`e0`", "`s0`", "`i0`", "`n1`", "`s1`", "`path`", "`depth`", "`root_id`", "`a b`", "`a.b`", "`1`", "`select`", "`a``b`", "`a\"b`", "`x`", "`X`",
+}
+
+// shapes for class 4: aliases reused as ORDER BY keys before and after WITH
+var vxOrderByShapes = []vxShape{
+	{"return", "match (n) return n.name as {0} order by {0}"},
+	{"return-entity", "match (n) return n as {0} order by {0}.name desc"},
+	{"return-two", "match (n) return n.name as {0}, n.other as {1} order by {1}, {0} desc skip 1 limit 2"},
+	{"with-orderby", "match (n) with n.name as {0} order by {0} return {0}"},
+	{"with-return-orderby", "match (n) with n.name as {0} return {0} order by {0}"},
+	{"with-limit-return", "match (n) with n.name as {0} order by {0} limit 10 return {0} as {1} order by {1} desc"},
+	{"with-entity", "match (n) with n as {0} order by {0}.name return {0}.name as {1} order by {1} desc"},
+	{"with-limit-match", "match (n) with n as {0} order by {0}.name limit 3 match ({0})-[r]->(m) return m as {1} order by {1}.name"},
+	{"count", "match (n)-[r]->(m) with n as {0}, count(r) as {1} order by {1} return {0}, {1} order by {1} desc limit 5"},
+	{"count-where", "match (n)-[r]->(m) with n as {0}, count(r) as {1} where {1} > 1 return {0}.name as {2}, {1} order by {2}, {1}"},
+	{"collect-unwind", "match (n) with collect(n) as {0} unwind {0} as {1} return {1} order by id({1})"},
+	{"variable", "match ({0}) return {0}.name as {1} order by {1}"},
+	{"variable-with", "match ({0}) with {0} order by {0}.name return {0} as {1} order by {1}.name"},
+	{"aggregate-count", "match ({0}:NodeKind1) match ({0})-[:EdgeKind1*1..]->({1}:NodeKind2) with {0}, count({1}) as {2} return {0}, {2} order by {2} desc limit 5"},
+	{"aggregate-count-with", "match ({0}:NodeKind1) match ({0})-[:EdgeKind1*1..]->({1}:NodeKind2) with {0}, count({1}) as {2} order by {2} desc limit 5 return {0} as {3}, {2} order by {2}"},
+	{"unwind", "unwind [3, 1, 2] as {0} with {0} order by {0} return {0} as {1} order by {1} desc"},
+}
+
+var vxOrderByNames = []string{"n0", "n1", "s0", "e0", "i0", "pi0"}
+
+func vxSlots(tmpl string) int {
+	n := 0
+	for strings.Contains(tmpl, "{"+strconv.Itoa(n)+"}") {
+		n++
+	}
+	return n
+}
+
+func vxNamesClass(x *vxState) string {
+	cyclic := func(list []string, from, n int) []string {
+		out := make([]string, n)
+		for i := range out {
+			out[i] = list[(from+i)%len(list)]
+		}
+		return out
+	}
+	caseTwins := func(names []string) bool {
+		lower := map[string]bool{}
+		for _, n := range names {
+			l := strings.ToLower(n)
+			if lower[l] {
+				return true
+			}
+			lower[l] = true
+		}
+		return false
+	}
+	// apart: the same names, but letters appended so that no two differ only in case
+	apart := func(names []string) []string {
+		out := make([]string, len(names))
+		for i, n := range names {
+			suffix := strings.Repeat("x", i+1)
+			if strings.HasSuffix(n, "`") {
+				out[i] = n[:len(n)-1] + suffix + "`"
+			} else {
+				out[i] = n + suffix
+			}
+		}
+		return out
+	}
+	one := func(shape vxShape, names []string) {
+		*x.cases++
+		msg := vxTwinCheck(x, shape.tmpl, names)
+		if msg == "" {
+			return
+		}
+		// a violation counts as one of letter case only if it goes away when the names are moved apart
+		class := "names-backtick@" + shape.tag
+		if caseTwins(names) && vxTwinCheck(x, shape.tmpl, apart(names)) == "" {
+			class = "names-case-variant@" + shape.tag
+		}
+		x.deviation(class, "%s", msg)
+	}
+	for _, shape := range vxNameShapes {
+		k := vxSlots(shape.tmpl)
+		for from := range vxHostileNames {
+			names := cyclic(vxHostileNames, from, k)
+			one(shape, names)
+			if k > 1 { // and the same names in the opposite order
+				rev := make([]string, k)
+				for i := range names {
+					rev[k-1-i] = names[i]
+				}
+				one(shape, rev)
+			}
+		}
+	}
+	// one variable written with and without backticks is still one variable
+	for _, tmpl := range []string{"match ({0}) return {1}", "match ({0}) where {1}.name = 'a' with {0} as {2} return {2}, {1}.name"} {
+		for _, n := range []string{"n", "N", "n0", "a_b"} {
+			names := []string{"`" + n + "`", n, "x"}
+			query := vxInstantiate(tmpl, names)
+			twin := vxInstantiate(tmpl, []string{"zzq0", "zzq0", "zzq2"})
+			twinModel, err1 := frontend.ParseCypher(frontend.NewContext(), twin)
+			model, err2 := frontend.ParseCypher(frontend.NewContext(), query)
+			if err1 != nil || err2 != nil {
+				x.fail("harness: %q / %q do not parse: %v %v", query, twin, err1, err2)
+				continue
+			}
+			*x.cases++
+			sqlT, _, errT, _, _ := vxTimedTranslate(twinModel, x.km, nil)
+			sqlW, _, errW, panW, _ := vxTimedTranslate(model, x.km, nil)
+			want := substOutsideLiterals(sqlT, map[string]string{"zzq0": n})
+			want2 := substOutsideLiterals(sqlT, map[string]string{"zzq0": `"` + n + `"`})
+			if panW != nil || (errT == nil) != (errW == nil) || (errT == nil && sqlW != want && sqlW != want2) {
+				x.deviation("names-backtick-same-variable", "C06 %q (one variable, spelled with and without backticks) is not translated like its twin %q: panic %v, error %v / %v\n  expected: %s\n  got:      %s", query, twin, panW, errW, errT, want, sqlW)
+			}
+		}
+	}
+	for _, shape := range vxOrderByShapes {
+		k := vxSlots(shape.tmpl)
+		for from := range vxOrderByNames {
+			*x.cases++
+			if msg := vxTwinCheck(x, shape.tmpl, cyclic(vxOrderByNames, from, k)); msg != "" {
+				x.deviation("orderby-generated-alias@"+shape.tag, "%s", msg)
+			}
+		}
+	}
+	return fmt.Sprintf("%d name shapes x %d windows (and their reversals) of %d hostile names (backticks, '$', parameter names, generated names, case variants; %d instances rejected by the parser) + %d ORDER BY shapes x %d rotations of the generated names %v, each against its twin with fresh names", len(vxNameShapes), len(vxHostileNames), len(vxHostileNames), x.counts["names-not-parsed"], len(vxOrderByShapes), len(vxOrderByNames), vxOrderByNames)
 }
